@@ -569,6 +569,8 @@ static int restore_interior_string (char **val, svalue_t * sv) {
               {
                 while ((c = *cp++) != '"')
                   {
+                    if (c == '\0')
+                      return ROB_STRING_ERROR;	/* unterminated */
                     if (c == '\\')
                       {
                         if (!(*newp++ = *cp++))
@@ -1209,6 +1211,8 @@ int restore_string (char *val, svalue_t * sv) {
               {
                 while ((c = *cp++) != '"')
                   {
+                    if (c == '\0')
+                      return ROB_STRING_ERROR;	/* unterminated */
                     if (c == '\\')
                       {
                         if (!(*newp++ = *cp++))
